@@ -46,9 +46,10 @@ MANIFEST = dict(
     note="Trusted: Coq kernel + vm_compute; the hand port of the expression printer in Syntax/TypedPrinter.v (tied on every run by "
          "comparing the tokens of the implementation's echo with the model's print of the intended typed tree) and of "
          "escape/strip in Syntax/StrEsc.v (strip_and_escape is also exercised by the C10 correspondence); the C10 parser model; "
-         "the generator's knowledge of how numbat elaborates its fully parenthesised sources. Eight echo defects were repaired by "
-         "fix: commits (phase 3: the echo of let / fn dropped the decorators, so aliases were lost), two are open findings (multi-name dimension types, implicit dimension of a base unit; the two re-association findings were repaired in the final phase: product "
-         "re-association not a fixed point).",
+         "the generator's knowledge of how numbat elaborates its fully parenthesised sources. Ten echo defects were repaired by "
+         "fix: commits (phase 3: the echo of let / fn dropped the decorators; final phase: a sum or product on the right lost its "
+         "parentheses, changing the display unit resp. the fixed point), two are open findings (multi-name dimension types, "
+         "implicit dimension of a base unit).",
     technique="Coq proof (echo = concrete syntax tree; well-formedness by induction; reuse of the C10 round-trip theorem) + "
               "printer-model correspondence + metamorphic echo oracle on the real interpreter",
 )
